@@ -264,6 +264,16 @@ def shard(ctx):
         frag = rng.random() < 0.3
         case = {"input": data, "container": rng.choice(gen.CONTEXTS) if frag else None, "scripting": rng.random() < 0.3}
         judge(ctx, case, "random")
+        if n % 12 == 0:
+            # well-formed documents (G5), every tag explicit and with optional tags omitted by R-omit: the region where
+            # implied end tags, table structure and head/body boundaries carry the result
+            from .. import conform
+            from . import c16
+            doc = conform.gen_document(rng, rng.choice([2, 3, 3, 4]))
+            judge(ctx, {"input": conform.explicit(doc), "container": None, "scripting": False}, "conforming")
+            om = c16.omitted_variant(ctx, rng, doc)
+            if om is not None:
+                judge(ctx, {"input": om, "container": None, "scripting": rng.random() < 0.2}, "conforming-omitted")
         if n % 50 == 0:
             determinism(ctx, case)
         if n <= 3 and ctx.i == 0:
